@@ -2,10 +2,10 @@ package main
 
 import (
 	"bytes"
-	"os/exec"
 	"fmt"
 	"hash/fnv"
 	"os"
+	"os/exec"
 	"sort"
 	"strings"
 )
@@ -14,6 +14,9 @@ import (
 // violations (and, when the model is attached, model/implementation disagreements).
 func runGW(suite, tier string, seed uint64, out string, only int, trace bool, count int, snap bool, driver string, useModel bool) int {
 	ps := profiles()
+	if cl := os.Getenv("RGH_CRASHLOG"); cl != "" {
+		crashLog, _ = os.Create(cl)
+	}
 	names := strings.Split(suite, ",")
 	if suite == "" || suite == "all" {
 		names = names[:0]
